@@ -49,11 +49,59 @@ func callName(e ast.Expr) string {
 	return ""
 }
 
+// collectCalls lists the calls of a body in source order. A call to an unexported function or method declared in
+// the same file that is not itself a fact target is followed by that helper's own calls (to depth 4): extracting
+// a few statements into a helper, or inlining one, leaves the list as it was apart from the helper's name.
+func collectCalls(f *ast.File, body ast.Node, isTarget map[string]bool, stack map[string]bool, depth int, out *[]string) {
+	ast.Inspect(body, func(n ast.Node) bool {
+		c, ok := n.(*ast.CallExpr)
+		if !ok {
+			return true
+		}
+		s := callName(c.Fun)
+		if s == "" || factNoise[s] {
+			return true
+		}
+		*out = append(*out, "\""+s+"\"")
+		if depth < 4 && !isTarget[s] && !stack[s] && s[0] >= 'a' && s[0] <= 'z' {
+			if hd := anyFuncDecl(f, s); hd != nil && hd.Body != nil {
+				stack[s] = true
+				// the arguments of this call are evaluated before the helper runs
+				for _, a := range c.Args {
+					collectCalls(f, a, isTarget, stack, depth, out)
+				}
+				collectCalls(f, hd.Body, isTarget, stack, depth+1, out)
+				delete(stack, s)
+				return false
+			}
+		}
+		return true
+	})
+}
+
+// anyFuncDecl finds a function or method of that name in the file (whatever its receiver); nil if there are several.
+func anyFuncDecl(f *ast.File, name string) *ast.FuncDecl {
+	var found *ast.FuncDecl
+	for _, d := range f.Decls {
+		if fd, ok := d.(*ast.FuncDecl); ok && fd.Name.Name == name {
+			if found != nil {
+				return nil
+			}
+			found = fd
+		}
+	}
+	return found
+}
+
 func genFacts() {
 	out := newFile("Facts.lean", "Fdo.Gen.Facts")
 	out.p("/-- (function, names of the functions and methods it calls, in source order) -/")
 	parsed := map[string]*ast.File{}
 	var rows, goRows []string
+	isTarget := map[string]bool{}
+	for _, t := range factTargets {
+		isTarget[t.name] = true
+	}
 	for _, t := range factTargets {
 		f, ok := parsed[t.file]
 		if !ok {
@@ -67,14 +115,7 @@ func genFacts() {
 		fd := funcDecl(f, t.recv, t.name)
 		var calls []string
 		if fd != nil && fd.Body != nil {
-			ast.Inspect(fd.Body, func(n ast.Node) bool {
-				if c, ok := n.(*ast.CallExpr); ok {
-					if s := callName(c.Fun); s != "" && !factNoise[s] {
-						calls = append(calls, "\""+s+"\"")
-					}
-				}
-				return true
-			})
+			collectCalls(f, fd.Body, isTarget, map[string]bool{t.name: true}, 0, &calls)
 		}
 		// calls made inside `go` statements (directly, or anywhere inside a `go func() { … }()` literal)
 		var gos []string
